@@ -86,6 +86,34 @@ fn check_spend_info(ctx: &mut Ctx, info: &TaprootSpendInfo, tree: &Tree, interna
         ctx.check(matching.is_some(), &format!("control-block-path!=reference/{}", what), || json!({"leaf": li, "cb": hex_short(&ser), "expected_depths": occurrences.iter().map(|l| l.depth).collect::<Vec<_>>(), "in": d()}));
         ctx.check(ser.len() == 33 + 32 * depth && cb.size() == ser.len() && (ser.len() - 33) % 32 == 0, "control-block-size!=33+32*depth", || json!({"size": cb.size(), "len": ser.len()}));
         ctx.check(occurrences.iter().any(|l| l.depth == depth), &format!("control-block-depth-not-a-leaf-depth/{}", what), || json!({"leaf": li, "depth": depth}));
+        // a (script, version) pair that occurs several times: `control_block` is documented to return
+        // the shortest path, and the script map must hold the path of every occurrence, each of which
+        // gives a verifying control block of the length its depth implies
+        let min_depth = occurrences.iter().map(|l| l.depth).min().unwrap();
+        ctx.check(depth == min_depth, &format!("control-block-not-the-shortest-of-the-occurrences/{}", what), || json!({"leaf": li, "depth": depth, "occurrence_depths": occurrences.iter().map(|l| l.depth).collect::<Vec<_>>(), "in": d()}));
+        if leaves.iter().position(|l| l.script == leaf.script && l.ver == leaf.ver) == Some(li) {
+            let want_paths: std::collections::BTreeSet<Vec<[u8; 32]>> = occurrences.iter().map(|l| l.path.clone()).collect();
+            let got_paths: std::collections::BTreeSet<Vec<[u8; 32]>> = info
+                .as_script_map()
+                .get(&sv)
+                .map(|set| set.iter().map(|b| b.as_inner().iter().map(|h| h.to_byte_array()).collect()).collect())
+                .unwrap_or_default();
+            ctx.check(got_paths == want_paths, &format!("script-map-paths!=occurrences/{}", what), || {
+                json!({"leaf": li, "occurrences": occurrences.len(), "expected_paths": want_paths.len(), "stored_paths": got_paths.len(),
+                       "expected_depths": want_paths.iter().map(|p| p.len()).collect::<Vec<_>>(), "stored_depths": got_paths.iter().map(|p| p.len()).collect::<Vec<_>>(), "in": d()})
+            });
+            if let Some(set) = info.as_script_map().get(&sv) {
+                for b in set.iter() {
+                    ctx.eval();
+                    let cbx = ControlBlock { internal_key: cb.internal_key, output_key_parity: cb.output_key_parity, leaf_version: cb.leaf_version, merkle_branch: b.clone() };
+                    let okx = with_secp(|s| cbx.verify_taproot_commitment(s, &out_key, &sv.0));
+                    ctx.check(okx && cbx.size() == 33 + 32 * b.as_inner().len(), &format!("stored-path-does-not-verify/{}", what), || json!({"leaf": li, "path_len": b.as_inner().len(), "in": d()}));
+                }
+            }
+            if occurrences.len() > 1 {
+                ctx.count("duplicate-leaf-groups-checked");
+            }
+        }
         ctx.check(ser[0] == (leaf.ver | if want_parity == zkp::Parity::Odd { 1 } else { 0 }) && ser[1..33] == internal.serialize(), "control-block-layout-wrong", || json!({"cb": hex_short(&ser), "leaf_version": leaf.ver}));
         match ControlBlock::from_slice(&ser) {
             Ok(back) => {
